@@ -212,10 +212,12 @@ class Response:
     XTWINOPS = rf"{CSI_escaped}{Ps};(\d+);(\d+)t"
 
     RGB_SPEC_re = rf"{OSC_escaped}(\d+);(rgb:[\da-fA-F/]+){ST_or_BEL}"
-    # The name may contain non-word characters (e.g. "xterm.js(5.3.0)") and
-    # the version may be absent
+    # The name may contain non-word characters (e.g. "xterm.js(5.3.0)"), the version
+    # (either in parentheses or after a space) may contain parentheses itself or
+    # be absent
     XTVERSION_re = (
-        rf"{DCS}>\|([^ ({ESC}]+)(?:[( ]([^){ESC}]+)\)?)?{ST_or_BEL}"
+        rf"{DCS}>\|([^ ({ESC}]+)"
+        rf"(?:\(([^{ESC}]+)\)| ([^{ESC}]+))?{ST_or_BEL}"
     )
     TEXT_AREA_SIZE_PX_re = XTWINOPS % 4
     CELL_SIZE_PX_re = XTWINOPS % 6
